@@ -14,7 +14,7 @@ import traceback
 HERE = os.path.dirname(os.path.abspath(__file__))
 sys.path.insert(0, os.path.dirname(HERE))
 
-from sa.repo import AnalysisError, Repo  # noqa: E402
+from sa.repo import AnalysisError, PlumbingViolation, Repo  # noqa: E402
 from sa.engine import Model  # noqa: E402
 from sa.report import Ctx, finish  # noqa: E402
 
@@ -23,7 +23,21 @@ def run_property(prop, tier, model=None, quiet=False):
     mod = importlib.import_module("sa.rules.%s" % prop.lower())
     model = model or Model()
     ctx = Ctx(model, prop, tier)
-    mod.run(ctx)
+    try:
+        mod.run(ctx)
+    except AnalysisError as e:
+        if isinstance(e, PlumbingViolation):
+            raise
+        # the analysis could not be completed.  If a rule that did complete has
+        # already found a violation (one that is not a listed known finding),
+        # that verdict stands on its own and is reported; otherwise the tree
+        # could not be modelled and the run is analysis-broken (exit 2).
+        from sa.report import new_failures
+        if not new_failures(ctx):
+            raise
+        ctx.note("analysis stopped after the violation(s) reported here: %s" % e)
+        print("NOTE: %s analysis incomplete (%s); reporting what was decided before"
+              % (prop, str(e)[:200]))
     return mod, ctx
 
 
